@@ -1097,6 +1097,305 @@ theorem d1_reverse (h : Rat) (L : Nat) (g : Nat → Rat) (i : Nat) (hi : i < L) 
 theorem d2_reverse (h : Rat) (L : Nat) (g : Nat → Rat) (i : Nat) (hi : i < L) :
     d2At h L (fun k => g (L - 1 - k)) i = d2At h L g (L - 1 - i) := d2At_reverse h L g i hi
 
+/-! ## 7. Commutation with a quarter turn of the field (`Field.rotate90`, `k = 1`)
+
+`rot90Fld` models `Field.rotate90(ax1, ax2)` about the region centre (mesh geometry through
+`Region.rotate90` / `Mesh.rotate90`, `np.rot90` of values and validity, exact quarter-turn
+matrix on the two in-plane components found through `_r_dim_mapping`); it is tied to the code
+by the correspondence run like the operators.  The theorems are `_partial`: one quarter turn
+(other `k` iterate it), fully valid fields, and the hypothesis `periodic f a = periodic f b`
+— without it the claim is FALSE of the code (`Mesh.rotate90` keeps `bc`, candidate finding
+D22); the vector Laplacian is excluded for non-positional mappings by candidate finding D21;
+the curl is checked by the oracle only. -/
+
+/-- **The scalar Laplacian commutes with a quarter turn** (`_partial`: one quarter turn `k = 1`
+about the region centre — other `k` are iterates; fully valid fields; the two axes of the
+plane both open or both periodic, because `Mesh.rotate90` keeps `bc` in place, candidate
+finding D22; vector fields with a non-positional mapping are excluded by candidate finding
+D21).  `laplace(rotate90(f)) = rotate90(laplace(f))` at every cell. -/
+theorem laplace_rot90_partial (f R L LR RL : Fld) (a b : Nat) (wf : MeshWf f) (hn : f.nvdim = 1)
+    (hf : FullyValid f) (ha : a < f.mesh.ndim) (hb : b < f.mesh.ndim) (hab : a ≠ b)
+    (hper : periodic f a = periodic f b)
+    (hR : rot90Fld f (f.mesh.region.dims.getD a "") (f.mesh.region.dims.getD b "") = .ok R)
+    (hL : laplace f = .ok L) (hLR : laplace R = .ok LR)
+    (hRL : rot90Fld L (L.mesh.region.dims.getD a "") (L.mesh.region.dims.getD b "") = .ok RL) :
+    ∀ i, InMesh R i → (LR.data.get i).getD 0 0 = (RL.data.get i).getD 0 0 := by
+  obtain ⟨hr, hRd, _⟩ := rot90Fld_scalar f R a b wf hn ha hb hab hR
+  obtain ⟨l1, l2, l3, l4⟩ := laplace_eq_scalar f L wf.dims hn hL
+  have hRdims : DimsOk R := by unfold DimsOk; rw [hr.dims, hr.ndim]; exact wf.dims
+  obtain ⟨r1, r2, r3, r4⟩ := laplace_eq_scalar R LR hRdims (by rw [hr.nvdim, hn]) hLR
+  have hRLd := rot90Fld_scalar_data L RL a b (by unfold DimsOk; rw [l2]; exact wf.dims)
+    (by rw [laplace_scalar_shape hn hL, l2]; exact wf.data_shape) l1 (by rw [l2]; exact ha) (by rw [l2]; exact hb) hRL
+  intro i hi
+  obtain ⟨hlen, hin⟩ := hi
+  rw [hr.ndim] at hlen hin
+  rw [r4 i, hRLd i, rotIdx_congr f L a b i l2, l4, hr.ndim]
+  have hdata : ∀ i', (R.data.get i').getD 0 0 = 1 * (f.data.get (rotIdx f a b i')).getD 0 0 := by
+    intro i'; rw [hRd i']; ring
+  have ia := hin a ha
+  have ib := hin b hb
+  rw [hr.n_a] at ia
+  rw [hr.n_b] at ib
+  rw [← sumTo_swap f.mesh.ndim a b ha hb hab (fun e => D f e 2 0 (rotIdx f a b i))]
+  apply sumTo_congr
+  intro e he
+  by_cases hea : e = a
+  · subst hea
+    simp only [if_true]
+    rw [D_rot_a f R e b 0 0 2 1 i hr hf (Or.inr rfl) hab (by rw [hlen]; exact ha) (by rw [hlen]; exact hb) hper ia hdata]
+    simp [revSign]
+  · by_cases heb : e = b
+    · subst heb
+      simp only [hea, if_false, if_true]
+      rw [D_rot_b f R a e 0 0 2 1 i hr hf (Or.inr rfl) hab (by rw [hlen]; exact ha) (by rw [hlen]; exact hb) hper ib hdata]
+      ring
+    · simp only [hea, heb, if_false]
+      have ie := hin e he
+      rw [hr.n_e e hea heb] at ie
+      rw [D_rot_e f R a b e 0 0 2 1 i hr hf (Or.inr rfl) hea heb ie hdata]
+      ring
+
+/-- **The gradient commutes with a quarter turn** (`_partial`: `k = 1`, fully valid plain
+scalar field, 2–4 mesh dimensions, the two axes of the plane both open or both periodic —
+see `laplace_rot90_partial`): turning the field and differentiating gives, at every cell and
+for every component, the same number as differentiating and then turning the vector field
+(whose in-plane components are exchanged with the sign of the quarter turn). -/
+theorem grad_rot90_partial (f R G GR RG : Fld) (a b : Nat) (wf : MeshWf f) (hp : Plain f)
+    (hf : FullyValid f) (ha : a < f.mesh.ndim) (hb : b < f.mesh.ndim) (hab : a ≠ b) (hn4 : f.mesh.ndim ≤ 4)
+    (hper : periodic f a = periodic f b)
+    (hR : rot90Fld f (f.mesh.region.dims.getD a "") (f.mesh.region.dims.getD b "") = .ok R)
+    (hG : grad f = .ok G) (hGR : grad R = .ok GR)
+    (hRG : rot90Fld G (G.mesh.region.dims.getD a "") (G.mesh.region.dims.getD b "") = .ok RG) :
+    ∀ i, InMesh R i → ∀ e, e < f.mesh.ndim → (GR.data.get i).getD e 0 = (RG.data.get i).getD e 0 := by
+  have hn2 : 2 ≤ f.mesh.ndim := by omega
+  obtain ⟨hr, hRd, _⟩ := rot90Fld_scalar f R a b wf hp.1 ha hb hab hR
+  obtain ⟨_, g2, g3, _, g5⟩ := grad_eq f G wf.dims hG
+  have hl2 : 2 ≤ f.mesh.region.dims.length := by rw [wf.dims.1]; exact hn2
+  obtain ⟨m1, m2⟩ := grad_meta f G hp hl2 hG
+  obtain ⟨labels, hlab, hlen, hnd⟩ := posVdims_nodup f.mesh.ndim hn2 hn4
+  rw [g2] at m1 m2
+  rw [hlab] at m1
+  have hvm : G.vmap = List.zip labels G.mesh.region.dims := by
+    rw [m2]
+    unfold posVmap
+    have h1 : ¬ (f.mesh.ndim = 1) := by omega
+    have h2' : f.mesh.ndim = G.mesh.region.ndim := by rw [g3]; rfl
+    simp only [h1, if_false, h2', if_true]
+    have : Fld.defaultVdims G.mesh.region.ndim = some labels := by rw [← h2']; exact hlab
+    rw [this]
+    have h1' : ¬ (G.mesh.region.ndim = 1) := by rw [← h2']; exact h1
+    simp only [h1', if_false]
+  have hGd : DimsOk G := by unfold DimsOk; rw [g3]; exact wf.dims
+  have hpair : ∀ x, x < f.mesh.ndim → (rDimLast G (G.mesh.region.dims.getD x "")).bind G.vdimIndex = some x :=
+    fun x hx => pos_pairing G labels m1 hvm hnd hGd.2 (by rw [hlen, hGd.1, g3]) x (by rw [hlen]; exact hx)
+  have hRGd := rot90Fld_vector_data G RG a b a b hGd (by rw [grad_shape hG, g3]; exact wf.data_shape)
+    (by rw [g2]; omega) (by rw [g3]; exact ha) (by rw [g3]; exact hb) (hpair a ha) (hpair b hb) hRG
+  have hRdims : DimsOk R := by unfold DimsOk; rw [hr.dims, hr.ndim]; exact wf.dims
+  obtain ⟨_, _, _, _, r5⟩ := grad_eq R GR hRdims hGR
+  have hlenG := grad_len hl2 hG
+  intro i hi e he
+  obtain ⟨hlen', hin⟩ := hi
+  rw [hr.ndim] at hlen' hin
+  have hdata : ∀ i', (R.data.get i').getD 0 0 = 1 * (f.data.get (rotIdx f a b i')).getD 0 0 := by
+    intro i'; rw [hRd i']; ring
+  have ia := hin a ha
+  have ib := hin b hb
+  rw [hr.n_a] at ia
+  rw [hr.n_b] at ib
+  rw [r5 i e (by rw [hr.ndim]; exact he), hRGd i, rotIdx_congr f G a b i g3,
+    turnVec_getD _ a b e hab (by rw [hlenG, g2]; exact ha) (by rw [hlenG, g2]; exact hb)]
+  by_cases hea : e = a
+  · subst hea
+    simp only [if_true]
+    rw [D_rot_a f R e b 0 0 1 1 i hr hf (Or.inl rfl) hab (by rw [hlen']; exact ha) (by rw [hlen']; exact hb) hper ia hdata,
+      g5 _ b hb]
+    simp [revSign]
+  · by_cases heb : e = b
+    · subst heb
+      simp only [hea, if_false, if_true]
+      rw [D_rot_b f R a e 0 0 1 1 i hr hf (Or.inl rfl) hab (by rw [hlen']; exact ha) (by rw [hlen']; exact hb) hper ib hdata,
+        g5 _ a ha]
+      ring
+    · simp only [hea, heb, if_false]
+      have ie := hin e he
+      rw [hr.n_e e hea heb] at ie
+      rw [D_rot_e f R a b e 0 0 1 1 i hr hf (Or.inl rfl) hea heb ie hdata, g5 _ e he]
+      ring
+
+/-- **The divergence commutes with a quarter turn** (`_partial`: `k = 1`, fully valid vector
+field with `nvdim = ndim` whose mapping pairs the components one-to-one with the axes, the
+two axes of the plane both open or both periodic).  `v1`, `v2` are the stored components
+paired with the axes `a`, `b` of the plane; the turn replaces them by `(-v2, v1)`, and
+`div(rotate90(v)) = rotate90(div(v))` at every cell. -/
+theorem div_rot90_partial (f R Dv DR RD : Fld) (a b v1 v2 : Nat) (vs : List String) (σ : Nat → Nat)
+    (wf : MeshWf f) (hf : FullyValid f) (ha : a < f.mesh.ndim) (hb : b < f.mesh.ndim) (hab : a ≠ b)
+    (hper : periodic f a = periodic f b) (hn : 1 < f.nvdim)
+    (hv : f.vdims = some vs) (hvl : vs.length = f.nvdim) (hvd : hasDup vs = false)
+    (hraw : ∀ i, (f.data.get i).length = f.nvdim)
+    (hσ : ∀ c, c < f.nvdim → σ c < f.mesh.ndim ∧
+      Fld.lookup f.vmap (vs.getD c "") = some (f.mesh.region.dims.getD (σ c) ""))
+    (h1 : (rDimLast f (f.mesh.region.dims.getD a "")).bind f.vdimIndex = some v1)
+    (h2 : (rDimLast f (f.mesh.region.dims.getD b "")).bind f.vdimIndex = some v2)
+    (hv1 : v1 < f.nvdim) (hv2 : v2 < f.nvdim) (hs1 : σ v1 = a) (hs2 : σ v2 = b)
+    (hoth : ∀ c, c < f.nvdim → c ≠ v1 → c ≠ v2 → σ c ≠ a ∧ σ c ≠ b)
+    (hR : rot90Fld f (f.mesh.region.dims.getD a "") (f.mesh.region.dims.getD b "") = .ok R)
+    (hD : div f = .ok Dv) (hDR : div R = .ok DR)
+    (hRD : rot90Fld Dv (Dv.mesh.region.dims.getD a "") (Dv.mesh.region.dims.getD b "") = .ok RD) :
+    ∀ i, InMesh R i → (DR.data.get i).getD 0 0 = (RD.data.get i).getD 0 0 := by
+  have h12 : v1 ≠ v2 := by intro he; rw [he, hs2] at hs1; exact hab hs1.symm
+  have hmap : 0 < f.vmap.length := by
+    have := (hσ v1 hv1).2
+    cases hq : f.vmap with
+    | nil => rw [hq] at this; simp [Fld.lookup] at this
+    | cons _ _ => simp
+  obtain ⟨q1, q2, q3, q4, q5⟩ := rot90Fld_vector_meta f R a b vs wf.dims hn hv hvl ha hb hmap hR
+  have hr := isRot90_of_mesh f R a b wf ha hb hab q5 q4 q3
+  have hRd := rot90Fld_vector_data f R a b v1 v2 wf.dims wf.data_shape hn ha hb h1 h2 hR
+  obtain ⟨_, d2, d3, _, d5⟩ := div_eq f Dv vs σ wf.dims hv hvl hvd hσ hD
+  have hRdims : DimsOk R := by unfold DimsOk; rw [hr.dims, hr.ndim]; exact wf.dims
+  have hσR : ∀ c, c < R.nvdim → σ c < R.mesh.ndim ∧
+      Fld.lookup R.vmap (vs.getD c "") = some (R.mesh.region.dims.getD (σ c) "") := by
+    intro c hc
+    rw [q3] at hc
+    rw [hr.ndim, q2, hr.dims]
+    exact hσ c hc
+  obtain ⟨_, _, _, _, r5⟩ := div_eq R DR vs σ hRdims q1 (by rw [hvl, q3]) hvd hσR hDR
+  have hRDd := rot90Fld_scalar_data Dv RD a b (by unfold DimsOk; rw [d3]; exact wf.dims)
+    (by rw [div_shape hD, d3]; exact wf.data_shape) d2 (by rw [d3]; exact ha) (by rw [d3]; exact hb) hRD
+  intro i hi
+  obtain ⟨hlen, hin⟩ := hi
+  rw [hr.ndim] at hlen hin
+  have ia := hin a ha
+  have ib := hin b hb
+  rw [hr.n_a] at ia
+  rw [hr.n_b] at ib
+  -- components of the turned field
+  have hcomp : ∀ c i', (R.data.get i').getD c 0
+      = if c = v1 then -((f.data.get (rotIdx f a b i')).getD v2 0)
+        else if c = v2 then (f.data.get (rotIdx f a b i')).getD v1 0 else (f.data.get (rotIdx f a b i')).getD c 0 := by
+    intro c i'
+    rw [hRd i', turnVec_getD _ v1 v2 c h12 (by rw [hraw]; exact hv1) (by rw [hraw]; exact hv2)]
+  rw [r5 i, hRDd i, rotIdx_congr f Dv a b i d3, d5, q3]
+  rw [← sumTo_swap f.nvdim v1 v2 hv1 hv2 h12 (fun c => D f (σ c) 1 c (rotIdx f a b i))]
+  apply sumTo_congr
+  intro c hc
+  by_cases hc1 : c = v1
+  · subst hc1
+    simp only [if_true]
+    rw [hs1, hs2]
+    rw [D_rot_a f R a b c v2 1 (-1) i hr hf (Or.inl rfl) hab (by rw [hlen]; exact ha) (by rw [hlen]; exact hb) hper ia
+      (fun i' => by rw [hcomp c i']; simp)]
+    simp [revSign]
+  · by_cases hc2 : c = v2
+    · subst hc2
+      simp only [hc1, if_false, if_true]
+      rw [hs1, hs2]
+      rw [D_rot_b f R a b c v1 1 1 i hr hf (Or.inl rfl) hab (by rw [hlen]; exact ha) (by rw [hlen]; exact hb) hper ib
+        (fun i' => by rw [hcomp c i']; simp [hc1])]
+      ring
+    · simp only [hc1, hc2, if_false]
+      obtain ⟨hea, heb⟩ := hoth c hc hc1 hc2
+      have ie := hin (σ c) (hσ c hc).1
+      rw [hr.n_e _ hea heb] at ie
+      rw [D_rot_e f R a b (σ c) c c 1 1 i hr hf (Or.inl rfl) hea heb ie
+        (fun i' => by rw [hcomp c i']; simp [hc1, hc2])]
+      ring
+
+/-- the four fields `laplace_rot90_partial` speaks about exist for every plain scalar field on a
+well-formed mesh without subregions -/
+theorem laplace_rot90_defined (f : Fld) (a b : Nat) (wf : MeshWf f) (hsub : f.mesh.subs = []) (hp : Plain f)
+    (ha : a < f.mesh.ndim) (hb : b < f.mesh.ndim) (hab : a ≠ b) :
+    ∃ R L LR RL, rot90Fld f (f.mesh.region.dims.getD a "") (f.mesh.region.dims.getD b "") = .ok R ∧
+      laplace f = .ok L ∧ laplace R = .ok LR ∧
+      rot90Fld L (L.mesh.region.dims.getD a "") (L.mesh.region.dims.getD b "") = .ok RL := by
+  obtain ⟨R, hR⟩ := rot90_accepts_plain f a b wf hsub hp ha hb hab
+  obtain ⟨L, hL⟩ := laplace_accepts f wf.dims (by omega) (Or.inl hp)
+  obtain ⟨hr, _, _⟩ := rot90Fld_scalar f R a b wf hp.1 ha hb hab hR
+  have hRd : DimsOk R := by unfold DimsOk; rw [hr.dims, hr.ndim]; exact wf.dims
+  obtain ⟨LR, hLR⟩ := laplace_accepts R hRd (by rw [hr.ndim]; omega) (Or.inl (rot90_plain hp hR))
+  obtain ⟨_, l2, _, _⟩ := laplace_eq_scalar f L wf.dims hp.1 hL
+  have wfL : MeshWf L := meshWf_of_mesh wf l2 (by rw [laplace_scalar_shape hp.1 hL, l2]; exact wf.data_shape)
+  obtain ⟨RL, hRL⟩ := rot90_accepts_plain L a b wfL (by rw [l2]; exact hsub) (plain_of_laplace_scalar hp hL)
+    (by rw [l2]; exact ha) (by rw [l2]; exact hb) hab
+  exact ⟨R, L, LR, RL, hR, hL, hLR, hRL⟩
+
+/-- … and likewise the four fields of `grad_rot90_partial` -/
+theorem grad_rot90_defined (f : Fld) (a b : Nat) (wf : MeshWf f) (hsub : f.mesh.subs = []) (hp : Plain f)
+    (ha : a < f.mesh.ndim) (hb : b < f.mesh.ndim) (hab : a ≠ b) (hn4 : f.mesh.ndim ≤ 4) :
+    ∃ R G GR RG, rot90Fld f (f.mesh.region.dims.getD a "") (f.mesh.region.dims.getD b "") = .ok R ∧
+      grad f = .ok G ∧ grad R = .ok GR ∧
+      rot90Fld G (G.mesh.region.dims.getD a "") (G.mesh.region.dims.getD b "") = .ok RG := by
+  have hn2 : 2 ≤ f.mesh.ndim := by omega
+  obtain ⟨R, hR⟩ := rot90_accepts_plain f a b wf hsub hp ha hb hab
+  obtain ⟨G, hG⟩ := grad_accepts f hp wf.dims (by omega)
+  obtain ⟨hr, _, _⟩ := rot90Fld_scalar f R a b wf hp.1 ha hb hab hR
+  have hRd : DimsOk R := by unfold DimsOk; rw [hr.dims, hr.ndim]; exact wf.dims
+  obtain ⟨GR, hGR⟩ := grad_accepts R (rot90_plain hp hR) hRd (by rw [hr.ndim]; omega)
+  obtain ⟨_, g2, g3, _, _⟩ := grad_eq f G wf.dims hG
+  have hl2 : 2 ≤ f.mesh.region.dims.length := by rw [wf.dims.1]; exact hn2
+  obtain ⟨m1, m2⟩ := grad_meta f G hp hl2 hG
+  obtain ⟨labels, hlab, hlen, hnd⟩ := posVdims_nodup f.mesh.ndim hn2 hn4
+  rw [g2] at m1 m2
+  rw [hlab] at m1
+  have hvm : G.vmap = List.zip labels G.mesh.region.dims := by
+    rw [m2]
+    unfold posVmap
+    have h1 : ¬ (f.mesh.ndim = 1) := by omega
+    have h2' : f.mesh.ndim = G.mesh.region.ndim := by rw [g3]; rfl
+    simp only [h1, if_false, h2', if_true]
+    have : Fld.defaultVdims G.mesh.region.ndim = some labels := by rw [← h2']; exact hlab
+    rw [this]
+    have h1' : ¬ (G.mesh.region.ndim = 1) := by rw [← h2']; exact h1
+    simp only [h1', if_false]
+  have hGd : DimsOk G := by unfold DimsOk; rw [g3]; exact wf.dims
+  have hll : labels.length = G.mesh.region.dims.length := by rw [hlen, hGd.1, g3]
+  have hpair : ∀ x, x < f.mesh.ndim → (rDimLast G (G.mesh.region.dims.getD x "")).bind G.vdimIndex = some x :=
+    fun x hx => pos_pairing G labels m1 hvm hnd hGd.2 hll x (by rw [hlen]; exact hx)
+  have wfG : MeshWf G := meshWf_of_mesh wf g3 (by rw [grad_shape hG, g3]; exact wf.data_shape)
+  obtain ⟨RG, hRG⟩ := rot90_accepts_vector G a b a b labels wfG (by rw [g3]; exact hsub) (by rw [g2]; omega) m1
+    (by rw [hlen, g2]) hnd
+    (by rw [hvm, List.map_fst_zip (by omega)]; exact List.isPerm_iff.mpr (List.Perm.refl _))
+    (by rw [hvm, List.length_zip]; omega)
+    (by rw [g3]; exact ha) (by rw [g3]; exact hb) hab (hpair a ha) (hpair b hb)
+  exact ⟨R, G, GR, RG, hR, hG, hGR, hRG⟩
+
+
+/-- … and the four fields of `div_rot90_partial`, for every well-formed vector field with
+`nvdim = ndim` whose mapping has the labels as keys and pairs both axes of the plane -/
+theorem div_rot90_defined (f : Fld) (a b v1 v2 : Nat) (vs : List String) (σ : Nat → Nat)
+    (wf : MeshWf f) (hsub : f.mesh.subs = []) (ha : a < f.mesh.ndim) (hb : b < f.mesh.ndim) (hab : a ≠ b)
+    (hn : 1 < f.nvdim) (hnn : f.nvdim = f.mesh.ndim)
+    (hv : f.vdims = some vs) (hvl : vs.length = f.nvdim) (hvd : hasDup vs = false)
+    (hkeys : (f.vmap.map (·.1)).isPerm vs = true)
+    (hσ : ∀ c, c < f.nvdim → σ c < f.mesh.ndim ∧
+      Fld.lookup f.vmap (vs.getD c "") = some (f.mesh.region.dims.getD (σ c) ""))
+    (h1 : (rDimLast f (f.mesh.region.dims.getD a "")).bind f.vdimIndex = some v1)
+    (h2 : (rDimLast f (f.mesh.region.dims.getD b "")).bind f.vdimIndex = some v2) :
+    ∃ R Dv DR RD, rot90Fld f (f.mesh.region.dims.getD a "") (f.mesh.region.dims.getD b "") = .ok R ∧
+      div f = .ok Dv ∧ div R = .ok DR ∧
+      rot90Fld Dv (Dv.mesh.region.dims.getD a "") (Dv.mesh.region.dims.getD b "") = .ok RD := by
+  have hmap : 0 < f.vmap.length := by
+    have := (hσ 0 (by omega)).2
+    cases hq : f.vmap with
+    | nil => rw [hq] at this; simp [Fld.lookup] at this
+    | cons _ _ => simp
+  obtain ⟨R, hR⟩ := rot90_accepts_vector f a b v1 v2 vs wf hsub hn hv hvl hvd hkeys hmap ha hb hab h1 h2
+  obtain ⟨Dv, hD⟩ := div_accepts f vs σ wf.dims hnn (by omega) hv hvl hvd hσ
+  obtain ⟨q1, q2, q3, q4, q5⟩ := rot90Fld_vector_meta f R a b vs wf.dims hn hv hvl ha hb hmap hR
+  have hr := isRot90_of_mesh f R a b wf ha hb hab q5 q4 q3
+  have hRd : DimsOk R := by unfold DimsOk; rw [hr.dims, hr.ndim]; exact wf.dims
+  obtain ⟨DR, hDR⟩ := div_accepts R vs σ hRd (by rw [q3, hr.ndim]; exact hnn) (by rw [q3]; omega) q1
+    (by rw [hvl, q3]) hvd (by
+      intro c hc
+      rw [q3] at hc
+      rw [hr.ndim, q2, hr.dims]
+      exact hσ c hc)
+  obtain ⟨_, d2, d3, _, _⟩ := div_eq f Dv vs σ wf.dims hv hvl hvd hσ hD
+  have wfD : MeshWf Dv := meshWf_of_mesh wf d3 (by rw [div_shape hD, d3]; exact wf.data_shape)
+  obtain ⟨RD, hRD⟩ := rot90_accepts_plain Dv a b wfD (by rw [d3]; exact hsub) (plain_of_div hD)
+    (by rw [d3]; exact ha) (by rw [d3]; exact hb) hab
+  exact ⟨R, Dv, DR, RD, hR, hD, hDR, hRD⟩
+
 /-! ## Non-vacuity: concrete fields that meet the hypotheses
 
 (`exS`, `exV`, `exMesh`, … are defined in `DFV/Lemmas/C05Examples.lean`) -/
@@ -1157,5 +1456,34 @@ example : ∃ g, laplace exV = .ok g ∧ g.vmap = [("x", "a"), ("y", "b"), ("z",
   refine ⟨g, hg, ?_, by decide⟩
   rw [m2, n1, n2]
   rfl
+
+/-- the hypotheses of `laplace_rot90_partial` are met by `exS` turned in the plane of axes 0, 1 -/
+example : MeshWf exS ∧ FullyValid exS ∧ periodic exS 0 = periodic exS 1 ∧
+    ∃ R L LR RL, rot90Fld exS (exS.mesh.region.dims.getD 0 "") (exS.mesh.region.dims.getD 1 "") = .ok R ∧
+      laplace exS = .ok L ∧ laplace R = .ok LR ∧
+      rot90Fld L (L.mesh.region.dims.getD 0 "") (L.mesh.region.dims.getD 1 "") = .ok RL :=
+  ⟨exS_wf, fun _ => rfl, by decide,
+   laplace_rot90_defined exS 0 1 exS_wf rfl ⟨rfl, rfl, rfl⟩ (by decide) (by decide) (by decide)⟩
+
+/-- … and those of `grad_rot90_partial` -/
+example : ∃ R G GR RG, rot90Fld exS (exS.mesh.region.dims.getD 0 "") (exS.mesh.region.dims.getD 2 "") = .ok R ∧
+      grad exS = .ok G ∧ grad R = .ok GR ∧
+      rot90Fld G (G.mesh.region.dims.getD 0 "") (G.mesh.region.dims.getD 2 "") = .ok RG :=
+  grad_rot90_defined exS 0 2 exS_wf rfl ⟨rfl, rfl, rfl⟩ (by decide) (by decide) (by decide) (by decide)
+
+/-- … and those of `div_rot90_partial` for the permuted field `exV` (plane of axes 0 and 1, which
+`exV` pairs with its stored components 1 and 2) -/
+example : (rDimLast exV (exV.mesh.region.dims.getD 0 "")).bind exV.vdimIndex = some 1 ∧
+    (rDimLast exV (exV.mesh.region.dims.getD 1 "")).bind exV.vdimIndex = some 2 ∧ exσ 1 = 0 ∧ exσ 2 = 1 ∧
+    (∀ c, c < exV.nvdim → c ≠ 1 → c ≠ 2 → exσ c ≠ 0 ∧ exσ c ≠ 1) ∧ (∀ i, (exV.data.get i).length = exV.nvdim) ∧
+    ∃ R Dv DR RD, rot90Fld exV (exV.mesh.region.dims.getD 0 "") (exV.mesh.region.dims.getD 1 "") = .ok R ∧
+      div exV = .ok Dv ∧ div R = .ok DR ∧
+      rot90Fld Dv (Dv.mesh.region.dims.getD 0 "") (Dv.mesh.region.dims.getD 1 "") = .ok RD := by
+  refine ⟨by decide, by decide, rfl, rfl, ?_, fun _ => rfl, ?_⟩
+  · intro c hc h1 h2
+    have : c = 0 := by unfold exV at hc; simp at hc; omega
+    subst this; decide
+  · exact div_rot90_defined exV 0 1 1 2 ["p", "q", "r"] exσ exV_wf rfl (by decide) (by decide) (by decide)
+      (by decide) rfl rfl rfl (by decide) (by decide) exV_σ (by decide) (by decide)
 
 end DFV.C05
